@@ -98,3 +98,55 @@ def rb_add(payload):
 
 
 rb_sample = rb_add
+
+
+def ma_buffer(payload):
+    """MultiAgentReplayBuffer: last min(N, added) experiences; fields and agents of one transition stay together."""
+    import numpy as np
+    from agilerl.components.multi_agent_replay_buffer import MultiAgentReplayBuffer
+    rnd = random.Random(payload.get("seed", 0))
+    agents, fields = ["agent_0", "agent_1"], ["obs", "action", "reward", "next_obs", "done"]
+    cases = 0
+
+    def exp(ident, a):
+        return {"obs": np.array([ident, a], dtype=np.float32), "action": np.array([ident * 10 + a]), "reward": float(ident + a / 10),
+                "next_obs": np.array([ident + 1, a], dtype=np.float32), "done": bool(ident % 2)}
+    for N in (1, 2, 3, 5):
+        for _ in range(20):
+            buf = MultiAgentReplayBuffer(N, fields, agents)
+            hist, nxt = [], 0
+            for step in range(rnd.randint(1, 7)):
+                E = rnd.choice([0, 0, 1, 2, 3])
+                if E == 0:
+                    ident = nxt; nxt += 1
+                    buf.save_to_memory(*[{ag: exp(ident, a)[f] for a, ag in enumerate(agents)} for f in fields], is_vectorised=False)
+                    hist.append(ident)
+                else:
+                    ids = list(range(nxt, nxt + E)); nxt += E
+                    buf.save_to_memory(*[{ag: np.array([exp(i, a)[f] for i in ids]) for a, ag in enumerate(agents)} for f in fields], is_vectorised=True)
+                    hist += ids
+                cases += 1
+                size = min(len(hist), N)
+                if len(buf) != size:
+                    return {"status": "fail", "cases": cases, "detail": f"len(buffer)={len(buf)}, min(N, added)={size}"}
+                stored = [int(np.asarray(e.obs["agent_0"]).reshape(-1)[0]) for e in buf.memory]
+                if stored != hist[-size:]:
+                    return {"status": "fail", "cases": cases, "detail": f"N={N}: stored experiences {stored} != last {size} added {hist[-size:]}"}
+                for e in buf.memory:
+                    ident = int(np.asarray(e.obs["agent_0"]).reshape(-1)[0])
+                    for a, ag in enumerate(agents):
+                        w = exp(ident, a)
+                        if int(np.asarray(e.action[ag]).reshape(-1)[0]) != ident * 10 + a or abs(float(np.asarray(e.reward[ag]).reshape(-1)[0]) - w["reward"]) > 1e-6 \
+                                or int(np.asarray(e.next_obs[ag]).reshape(-1)[0]) != ident + 1 or int(np.asarray(e.obs[ag]).reshape(-1)[1]) != a:
+                            return {"status": "fail", "cases": cases, "detail": f"stored experience {ident}: fields/agents do not belong together ({ag})"}
+                if size:
+                    k = rnd.randint(1, size)
+                    obs, act, rew, nobs, done = buf.sample(k)
+                    ids = [int(np.asarray(obs["agent_0"][b]).reshape(-1)[0]) for b in range(k)]
+                    if len(set(ids)) != k or any(i not in hist[-size:] for i in ids):
+                        return {"status": "fail", "cases": cases, "detail": f"sampled ids {ids} not distinct stored experiences {hist[-size:]}"}
+                    for b, ident in enumerate(ids):
+                        for a, ag in enumerate(agents):
+                            if int(np.asarray(act[ag][b]).reshape(-1)[0]) != ident * 10 + a or int(np.asarray(nobs[ag][b]).reshape(-1)[0]) != ident + 1:
+                                return {"status": "fail", "cases": cases, "detail": f"batch row {b}: fields of different experiences mixed ({ag})"}
+    return {"status": "pass", "cases": cases}
